@@ -17,6 +17,12 @@
 //     (the default policy documents no order; none is checked);
 //   - every agent entry is a peer that announced for that torrent, with the
 //     address it announced (and, on the LocalStore, its latest completion flag).
+//
+// Worlds have time: the peer stores run on a mock clock that advances below and
+// beyond the peer TTL / the Redis window look-back between announces (peers go
+// silent, lapse and come back; with and without the LocalStore cleanup passes,
+// run through export_verif_c27.go), and a quarter of the worlds are large swarms
+// whose handouts hold dozens of entries of every class.
 package c26
 
 import (
@@ -25,9 +31,11 @@ import (
 	"errors"
 	"fmt"
 	"math/rand"
-	"net/http/httptest"
+	"net"
+	"net/http"
 	"strings"
 	"sync"
+	"sync/atomic"
 	"testing"
 	"time"
 
@@ -71,10 +79,12 @@ func (s *scriptedOrigins) GetOrigins(d core.Digest) ([]*core.PeerInfo, error) {
 // ---- world ------------------------------------------------------------------
 
 type step struct {
-	Peer     int  `json:"p"`
-	Torrent  int  `json:"t"`
-	Complete bool `json:"c"`
-	V1       bool `json:"v1,omitempty"`
+	Peer     int    `json:"p"`
+	Torrent  int    `json:"t"`
+	Complete bool   `json:"c"`
+	V1       bool   `json:"v1,omitempty"`
+	AdvNs    int64  `json:"adv_ns,omitempty"`  // clock advance before this announce
+	Cleanup  string `json:"cleanup,omitempty"` // LocalStore cleanup pass run before this announce: entries | groups
 }
 
 type world struct {
@@ -87,6 +97,11 @@ type world struct {
 	OriginFail []bool `json:"origin_store_fails"`
 	Steps      []step `json:"steps"`
 	IDSeed     int64  `json:"id_seed"`
+	Large      bool   `json:"large_swarm,omitempty"`
+	TTLSec     int    `json:"local_ttl_sec,omitempty"`
+	WindowSec  int    `json:"redis_window_sec,omitempty"`
+	MaxWindows int    `json:"redis_max_windows,omitempty"`
+	Cleanups   bool   `json:"local_cleanup_passes,omitempty"`
 }
 
 func genWorld(r *rand.Rand) world {
@@ -97,10 +112,38 @@ func genWorld(r *rand.Rand) world {
 	if r.Intn(3) == 0 {
 		w.Policy = "default"
 	}
+	// a quarter of the worlds are large swarms: the default handout limit is 50,
+	// so single handouts hold dozens of seeders, origins and incomplete peers
+	w.Large = r.Intn(4) == 0
+	if w.Large {
+		w.Peers = 20 + r.Intn(41)
+		w.Limit = 15 + r.Intn(36)
+		w.Torrents = 1
+		if r.Intn(4) != 0 {
+			w.Policy = "completeness"
+		}
+	}
 	for t := 0; t < w.Torrents; t++ {
 		w.Origins = append(w.Origins, r.Intn(4))
 		w.OriginFail = append(w.OriginFail, r.Intn(8) == 0)
+		if w.Large {
+			w.Origins[t], w.OriginFail[t] = 1+r.Intn(3), false
+		}
 	}
+	// time: the peer TTL (LocalStore) / the window look-back (RedisStore) and clock
+	// advances below and beyond it between announces; in half of the LocalStore
+	// worlds the cleanup passes also run now and then, in the other half never
+	// (in production they run every 5 minutes / every hour)
+	w.TTLSec = []int{5, 60, 3600}[r.Intn(3)]
+	w.WindowSec = []int{10, 60, 3600}[r.Intn(3)]
+	w.MaxWindows = []int{2, 5}[r.Intn(2)]
+	w.Cleanups = r.Intn(2) == 0
+	span := time.Duration(w.TTLSec) * time.Second
+	if w.Store == "redis" {
+		span = time.Duration(w.WindowSec*w.MaxWindows) * time.Second
+	}
+	timed := r.Intn(4) != 0 // a quarter of the worlds never move the clock
+
 	// completion state per (peer, torrent): mostly monotone (download finishes),
 	// sometimes flipping back (blob evicted and re-downloaded)
 	state := make([][]bool, w.Peers)
@@ -108,9 +151,15 @@ func genWorld(r *rand.Rand) world {
 		state[p] = make([]bool, w.Torrents)
 		for t := range state[p] {
 			state[p][t] = r.Intn(5) == 0 // some peers start as seeders
+			if w.Large {
+				state[p][t] = r.Intn(2) == 0
+			}
 		}
 	}
 	n := 20 + r.Intn(61)
+	if w.Large {
+		n = 2*w.Peers + r.Intn(60)
+	}
 	for i := 0; i < n; i++ {
 		p, t := r.Intn(w.Peers), r.Intn(w.Torrents)
 		switch x := r.Intn(20); {
@@ -120,22 +169,77 @@ func genWorld(r *rand.Rand) world {
 			// only on the LocalStore: the Redis store documents that it ORs completion bits across windows
 			state[p][t] = false
 		}
-		w.Steps = append(w.Steps, step{Peer: p, Torrent: t, Complete: state[p][t], V1: r.Intn(4) == 0})
+		st := step{Peer: p, Torrent: t, Complete: state[p][t], V1: r.Intn(4) == 0}
+		if timed && r.Intn(7) == 0 {
+			switch r.Intn(6) {
+			case 0:
+				st.AdvNs = int64(span / 3)
+			case 1:
+				st.AdvNs = int64(span) - 1 // limit - 1 tick
+			case 2, 3:
+				st.AdvNs = int64(span) + 1 // limit + 1 tick: everything announced before has lapsed
+			case 4:
+				st.AdvNs = 2 * int64(span)
+			default:
+				st.AdvNs = 1 + r.Int63n(2*int64(span))
+			}
+		}
+		if w.Store == "local" && w.Cleanups && r.Intn(12) == 0 {
+			st.Cleanup = []string{"entries", "groups"}[r.Intn(2)]
+		}
+		w.Steps = append(w.Steps, st)
 	}
 	return w
 }
 
+// fastClock is kraken's mock clock with Now/Set served from an atomic
+// (clock.Mock.Set sleeps 1 ms per call; the peer stores only ever call Now).
+type fastClock struct {
+	*clock.Mock
+	ns atomic.Int64
+}
+
+func newFastClock(t time.Time) *fastClock {
+	c := &fastClock{Mock: clock.NewMock()}
+	c.ns.Store(t.UnixNano())
+	return c
+}
+
+func (c *fastClock) Now() time.Time  { return time.Unix(0, c.ns.Load()).UTC() }
+func (c *fastClock) Set(t time.Time) { c.ns.Store(t.UnixNano()) }
+
 type latest struct {
-	ip       string
-	port     int
-	complete bool
+	ip        string
+	port      int
+	complete  bool
+	expiresAt time.Time // LocalStore worlds: announce time + TTL
 }
 
 // redisEnv is a per-worker miniredis with a pinned clock.
 type redisEnv struct {
-	mr    *miniredis.Miniredis
-	clk   *clock.Mock
-	store *peerstore.RedisStore // one per worker: RedisStore.Close does not release its pool
+	mr     *miniredis.Miniredis
+	clk    *fastClock
+	stores map[[2]int]*peerstore.RedisStore // per (window, max windows); reused: RedisStore.Close does not release its pool
+}
+
+func (e *redisEnv) store(windowSec, maxWindows int) (*peerstore.RedisStore, error) {
+	k := [2]int{windowSec, maxWindows}
+	if s := e.stores[k]; s != nil {
+		return s, nil
+	}
+	s, err := peerstore.NewRedisStore(peerstore.RedisConfig{Addr: e.mr.Addr(), MaxIdleConns: 2,
+		PeerSetWindowSize: time.Duration(windowSec) * time.Second, MaxPeerSetWindows: maxWindows}, e.clk)
+	if err == nil {
+		e.stores[k] = s
+	}
+	return s, err
+}
+
+func (e *redisEnv) advance(d time.Duration) {
+	now := e.clk.Now().Add(d)
+	e.mr.FastForward(d)
+	e.clk.Set(now)
+	e.mr.SetTime(now)
 }
 
 func classOf(p *core.PeerInfo) string {
@@ -158,8 +262,11 @@ func render(ps []*core.PeerInfo) []string {
 
 func TestC26(t *testing.T) {
 	run := ev.Start(t, "C26", "exploration",
-		"PRNG worlds: peer store local|redis(miniredis), policy completeness|default, handout limit 1-10, 2-12 peers, 1-2 torrents, 0-3 origins per torrent (origin store sometimes failing), "+
-			"20-80 announces with completion flags flipping, v1 and v2 endpoints through the real announce client. One case per announce; a case is non-trivial when the announcer was incomplete "+
+		"PRNG worlds: peer store local|redis(miniredis), policy completeness|default, handout limit 1-10, 2-12 peers, 1-2 torrents, 0-3 origins per torrent (origin store sometimes failing); "+
+			"a quarter are large swarms (20-60 peers, half of them seeders, limit 15-50, 1-3 origins, mostly completeness) whose handouts hold well over 12 entries; "+
+			"20-80 (large: 2x peers + 0-60) announces with completion flags flipping, v1 and v2 endpoints through the real announce client; in three quarters of the worlds the mock clock advances "+
+			"between announces (TTL/3, TTL-1ns, TTL+1ns, 2xTTL, random; TTL 5s-1h on the LocalStore, window x max-windows on the RedisStore) so peers lapse and re-announce, and half of the LocalStore worlds "+
+			"also run the cleanup passes now and then. One case per announce; a case is non-trivial when the announcer was incomplete "+
 			"and at least one other peer had announced for the torrent or the blob had an origin (so the handout had something to list); distinct = distinct (world, step).")
 	defer run.Finish()
 	run.Assume("origin servers do not announce (they run with announceclient.Disabled), so origin ids and agent ids are disjoint")
@@ -168,7 +275,7 @@ func TestC26(t *testing.T) {
 	log.SetGlobalLogger(zap.NewNop().Sugar())
 
 	const workers = 6
-	total := run.N(9000, 150000) // announces
+	total := run.N(12000, 150000) // announces
 	per := total / workers
 	var wg sync.WaitGroup
 	for k := 0; k < workers; k++ {
@@ -203,16 +310,9 @@ func worker(t *testing.T, run *ev.Run, k, announces int) {
 				t.Errorf("miniredis: %v", err)
 				return
 			}
-			clk := clock.NewMock()
 			now := time.Date(2100, 1, 1, 0, 30, 0, 0, time.UTC)
-			clk.Set(now)
 			mr.SetTime(now)
-			rs, err := peerstore.NewRedisStore(peerstore.RedisConfig{Addr: mr.Addr(), MaxIdleConns: 2}, clk)
-			if err != nil {
-				t.Errorf("redis store: %v", err)
-				return
-			}
-			renv = &redisEnv{mr, clk, rs}
+			renv = &redisEnv{mr, newFastClock(now), map[[2]int]*peerstore.RedisStore{}}
 		}
 		if !runWorld(t, run, wid, w, renv) {
 			return
@@ -262,11 +362,20 @@ func runWorld(t *testing.T, run *ev.Run, wid string, w world, renv *redisEnv) bo
 
 	// real components
 	var store peerstore.Store
+	var local *peerstore.LocalStore
+	lclk := newFastClock(time.Date(2030, 1, 1, 0, 0, 0, 0, time.UTC))
+	ttl := time.Duration(w.TTLSec) * time.Second
 	switch w.Store {
 	case "local":
-		store = peerstore.NewLocalStore(peerstore.LocalConfig{}, clock.NewMock())
+		local = peerstore.NewLocalStore(peerstore.LocalConfig{TTL: ttl}, lclk)
+		store = local
 	case "redis":
-		store = renv.store
+		rs, err := renv.store(w.WindowSec, w.MaxWindows)
+		if err != nil {
+			t.Errorf("redis store: %v", err)
+			return false
+		}
+		store = rs
 	}
 	defer store.Close()
 	policy, err := peerhandoutpolicy.NewPriorityPolicy(tally.NoopScope, w.Policy)
@@ -277,10 +386,17 @@ func runWorld(t *testing.T, run *ev.Run, wid string, w world, renv *redisEnv) bo
 	interval := 7 * time.Second
 	server := trackerserver.New(trackerserver.Config{PeerHandoutLimit: w.Limit, AnnounceInterval: interval},
 		tally.NoopScope, policy, store, origins, nil)
-	ts := httptest.NewServer(server.Handler())
-	defer ts.Close()
-	addr := strings.TrimPrefix(ts.URL, "http://")
-	ring := hashring.NoopPassiveRing(hostlist.Fixture(addr))
+	// (a plain http.Server: closing an httptest.Server closes the idle connections of
+	// http.DefaultTransport, which the other workers' announce clients are using)
+	ln, err := net.Listen("tcp", "127.0.0.1:0")
+	if err != nil {
+		t.Errorf("listen: %v", err)
+		return false
+	}
+	srv := &http.Server{Handler: server.Handler()}
+	go srv.Serve(ln)
+	defer srv.Close()
+	ring := hashring.NoopPassiveRing(hostlist.Fixture(ln.Addr().String()))
 
 	peers := make([]peer, w.Peers)
 	byID := map[core.PeerID]int{}
@@ -307,6 +423,39 @@ func runWorld(t *testing.T, run *ev.Run, wid string, w world, renv *redisEnv) bo
 				break
 			}
 		}
+		if st.AdvNs > 0 {
+			if w.Store == "local" {
+				now := lclk.Now().Add(time.Duration(st.AdvNs))
+				// never sit exactly on an expiry instant (After vs >= is not part of the statement)
+				for again := true; again; {
+					again = false
+					for _, m := range model {
+						for _, l := range m {
+							if l.expiresAt.Equal(now) {
+								now, again = now.Add(1), true
+							}
+						}
+					}
+				}
+				lclk.Set(now)
+			} else {
+				renv.advance(time.Duration(st.AdvNs))
+			}
+			run.Count("clock_advances_"+w.Store, 1)
+		}
+		if st.Cleanup != "" && local != nil {
+			if st.Cleanup == "entries" {
+				local.VerifC27CleanupExpiredPeerEntries()
+			} else {
+				local.VerifC27CleanupExpiredPeerGroups()
+			}
+			run.Count("local_cleanup_passes", 1)
+		}
+		if w.Store == "local" {
+			if l, ok := model[st.Torrent][st.Peer]; ok && lclk.Now().After(l.expiresAt) {
+				run.Count("reannounces_after_ttl_lapsed", 1)
+			}
+		}
 		p := peers[st.Peer]
 		version := announceclient.V2
 		if st.V1 {
@@ -320,7 +469,7 @@ func runWorld(t *testing.T, run *ev.Run, wid string, w world, renv *redisEnv) bo
 		}
 		hasOrigins := w.Origins[st.Torrent] > 0 && !w.OriginFail[st.Torrent]
 		got, gotInterval, err := p.client.Announce(digests[st.Torrent], hashes[st.Torrent], st.Complete, version)
-		model[st.Torrent][st.Peer] = latest{p.pctx.IP, p.pctx.Port, st.Complete}
+		model[st.Torrent][st.Peer] = latest{p.pctx.IP, p.pctx.Port, st.Complete, lclk.Now().Add(ttl)}
 		run.Case(wk+"/"+fmt.Sprint(si), !st.Complete && (others > 0 || hasOrigins))
 		run.Count("announces_"+w.Store+"_"+w.Policy, 1)
 		if st.V1 {
@@ -402,6 +551,9 @@ func runWorld(t *testing.T, run *ev.Run, wid string, w world, renv *redisEnv) bo
 			}
 			if len(classes) >= 2 {
 				run.Count("ordered_handouts_with_mixed_classes", 1)
+			}
+			if len(got) > 12 && classes["seeder"] && classes["origin"] {
+				run.Count("ordered_handouts_over_12_entries_with_seeders_and_origins", 1)
 			}
 		}
 	}
